@@ -30,7 +30,22 @@ def fault_bases(ctx):
         g = hist.Gen(random.Random(rng.random()), rs, alpha=hist.SAFE_ALPHA, max_calls=7 if quick else 12, ops_level=True, malformed=0.15)
         h = g.history({"rs": rs, "cache": "file"}, [])
         hs.append(h)
+    # entries that exist at every fault point: the probes after a faulted call go through every write operation on them
+    for h in hs:
+        if not any(b["len"] > 0 for b in h["blobs"]):
+            h["blobs"].append({"seed": len(h["blobs"]) + 1, "len": 300})
+        nb = next(i for i, b in enumerate(h["blobs"]) if b["len"] > 0)
+        k = 1 if h["calls"] and h["calls"][0]["op"] == "initialize" else 0
+        h["calls"][k:k] = [{"op": "createfile", "name": "/zz-keep", "blob": nb}, {"op": "mkdir", "name": "/zz-dir", "perm": 0o755}]
     return hs
+
+
+def probes(j):
+    """calls issued after a faulted call: one through each write operation (archive, update, move, delete) and a read; they
+    have to RETURN (with a result or an error), nothing more"""
+    return [{"op": "mkdir", "name": "/probe-%d" % j, "perm": 0o755, "tmo": 4000}, {"op": "stat", "name": "/probe-%d" % j, "tmo": 4000},
+            {"op": "chmod", "name": "/zz-keep", "perm": 0o600, "tmo": 4000}, {"op": "rename", "name": "/zz-dir", "name2": "/zz-dir2", "tmo": 4000},
+            {"op": "remove", "name": "/zz-keep", "tmo": 4000}, {"op": "readfile", "name": "/zz-keep", "tmo": 4000}]
 
 
 def faults_C10(ctx, proof_ok):
@@ -60,7 +75,7 @@ def faults_C10(ctx, proof_ok):
             h["calls"] = h["calls"][:j + 1]
             h["calls"][j]["fault"] = {"seam": seam, "k": k}
             h["calls"][j]["tmo"] = 4000
-            h["calls"] += [{"op": "mkdir", "name": "/probe-%d" % j, "perm": 0o755, "tmo": 4000}, {"op": "stat", "name": "/probe-%d" % j, "tmo": 4000}]
+            h["calls"] += probes(j)
             h["obs"] = []
             runs.append(h)
         out = hist.run_many(runs, timeout=60)
@@ -87,7 +102,7 @@ def faults_C10(ctx, proof_ok):
             verdict = "hang"
         elif rc != 0:
             verdict = "crash"
-        elif fr is None or len(res) < j + 3:
+        elif fr is None or len(res) < j + 1 + len(probes(j)):
             verdict = "incomplete"
         elif fr.get("held", 0) != 0 or res[j + 1].get("held", 0) != 0:
             verdict = "drive-not-released"
@@ -104,7 +119,7 @@ def faults_C10(ctx, proof_ok):
                 h["calls"] = h["calls"][:j + 1]
                 h["calls"][j]["fault"] = {"seam": seam, "k": k}
                 ctx.violation(verdict, "%s after a fault at the %d. %s event of call %d (%s)" % (verdict, k, seam, j, call["op"]),
-                              dict(history=h, fault=dict(call=j, seam=seam, k=k), then="mkdir /probe; stat /probe", exit_code=rc,
+                              dict(history=h, fault=dict(call=j, seam=seam, k=k), then="mkdir /probe; stat /probe; chmod /zz-keep; rename /zz-dir /zz-dir2; remove /zz-keep; read /zz-keep", exit_code=rc,
                                    outcomes=[r["out"] for r in res], stderr=d["err"][-400:]))
     # witness of the known finding, replayed on every run (a finding that disappears is noted)
     wh = {"config": {"rs": 20, "cache": "file"}, "blobs": [{"seed": 1, "len": 1500}], "obs": [],
@@ -247,6 +262,51 @@ def readonly_model_tie(ctx):
     for d in cached["crashed"]:
         ctx.violation("crash-or-hang", "two-phase read-only history ended with exit code %s" % d["exit_code"], d)
     ctx.coverage.update(ro_model_tie_histories=cached["cases"], ro_model_tie_outcomes=cached["outs"])
+
+
+def readonly_unindexable_C15(ctx):
+    """A read-only instance opened with an EMPTY index over a tape it cannot index at all (another identity under encryption or
+    signatures) or can (same identity): Initialize must not write (a root is 'missing' only because nothing could be indexed),
+    with and without a write backend, and must not take the process down."""
+    cached, p = streams.cache_get(ctx, "rounindexable")
+    if cached is None:
+        hs = []
+        O = ["tapesha"]
+        for (enc, sig) in (("age", ""), ("", "minisign"), ("pgp", "pgp"), ("", "")):
+            for how in ("fresh-otherkey", "fresh"):
+                if how == "fresh-otherkey" and not (enc or sig):
+                    continue
+                for nowrite in (False, True):
+                    hs.append({"config": {"rs": 20, "cache": "file", "enc": enc, "sig": sig, "comp": ""}, "blobs": [{"seed": 1, "len": 300}], "obs": [],
+                               "calls": [{"op": "initialize"}, {"op": "mkdir", "name": "/a", "perm": 0o755}, {"op": "createfile", "name": "/a/f", "blob": 0}, {"op": "nop", "obs": O},
+                                         {"op": "ro_switch", "flag": nowrite, "data": how, "obs": O, "tmo": 20000}, {"op": "stat", "name": "/", "obs": O}, {"op": "mkdir", "name": "/x", "perm": 0o755, "obs": O},
+                                         {"op": "readfile", "name": "/a/f", "obs": O}]})
+        hs = [h for h in streams.replay_override(ctx, "history", hs) if any(c["op"] == "ro_switch" and c.get("data") for c in h["calls"])]
+        res = hist.run_many(hs, timeout=300)
+        cached = [dict(h=h, res=r, rc=rc, err=e[-600:]) for h, (r, rc, e) in zip(hs, res)]
+        streams.cache_put(p, cached)
+    bad = 0
+    outs = collections.Counter()
+    for d in cached:
+        h, res = d["h"], d["res"]
+        sw = next(i for i, c in enumerate(h["calls"]) if c["op"] == "ro_switch")
+        how = h["calls"][sw].get("data")
+        if d["rc"] != 0 or len(res) < len(h["calls"]):
+            bad += 1
+            ctx.violation("crash-or-hang", "opening a read-only instance with an empty index (%s, write backend %s) ended with exit code %s" % (how, "absent" if h["calls"][sw].get("flag") else "present", d["rc"]),
+                          dict(history=h, stderr=d["err"], outcomes=[r["out"] for r in res]))
+            continue
+        ref = res[sw - 1]["obs"].get("tape_sha")
+        outs["%s:%s" % (how, res[sw]["out"])] += 1
+        for i in range(sw, len(res)):
+            if (res[i].get("obs") or {}).get("tape_sha") != ref:
+                bad += 1
+                ctx.violation("readonly-tape-changed", "the tape changed at call %d (%s) of a read-only instance opened with an empty index (%s)" % (i, h["calls"][i]["op"], how),
+                              dict(history=dict(h, calls=h["calls"][:i + 1]), failing_call=i, outcomes=[r["out"] for r in res[:i + 1]]))
+                break
+    ctx.oblige("read-only oracle: a read-only instance opened with an empty index over a tape it can or cannot index (other identity) never writes and never crashes, with and without a write backend (%d runs)" % len(cached),
+               bad == 0, "%d failures" % bad)
+    ctx.coverage.update(ro_empty_index_runs=len(cached), ro_empty_index_outcomes=dict(outs))
 
 
 def readonly_C15(ctx, proof_ok):
